@@ -55,6 +55,11 @@ class CountReg(object):
         return other is self
 
 
+class DimenReg(CountReg):
+    """a \\newdimen register (value in pt as a Fraction; assigned at the outer level only, like the count registers)"""
+    __slots__ = ()
+
+
 class CharMeaning(object):
     """\\let\\a=<character token>"""
     __slots__ = ('tok',)
@@ -83,7 +88,7 @@ PRIMS = ['def', 'gdef', 'newcommand', 'renewcommand', 'let', 'csname', 'endcsnam
          'else', 'or', 'fi', 'newif', 'catcode', 'makeatletter', 'makeatother', 'begingroup', 'endgroup',
          'newcounter', 'setcounter', 'addtocounter', 'stepcounter', 'arabic', 'value', 'par', 'begin', 'end', 'item',
          'textbf', 'mbox', 'emph', '\\', '(', ')', 'global', 'newenvironment', 'pvendenvfinish', 'ifthenelse', 'whiledo', 'newboolean', 'setboolean', 'number',
-         'small', 'bfseries', 'itshape', 'large', 'newcount'] + list(IF_PRIMS)
+         'small', 'bfseries', 'itshape', 'large', 'newcount', 'newdimen'] + list(IF_PRIMS)
 
 UNITS = {'pt': Fraction(1), 'pc': Fraction(12), 'in': Fraction(7227, 100), 'bp': Fraction(7227, 7200), 'cm': Fraction(7227, 254),
          'mm': Fraction(7227, 2540), 'dd': Fraction(1238, 1157), 'cc': Fraction(14856, 1157), 'sp': Fraction(1, 65536)}
@@ -526,7 +531,7 @@ class Interp(object):
         if t == ('cs', 'value'):
             return self.counters[self.read_name_arg()]
         m = self.meaning_of(t) if t[0] in ('cs', 'active') else None
-        if isinstance(m, CountReg):
+        if isinstance(m, CountReg) and not isinstance(m, DimenReg):
             return m.cell[0]
         return None
 
@@ -583,6 +588,10 @@ class Interp(object):
         sign, t = self.scan_signs()
         if t is None:
             raise TeXError('missing dimen')
+        m = self.meaning_of(t) if t[0] in ('cs', 'active') else None
+        if isinstance(m, DimenReg):
+            # an internal dimension: the register itself, with the signs in front of it
+            return sign * m.cell[0]
         s = ''
         frac = ''
         seen_point = False
@@ -609,6 +618,9 @@ class Interp(object):
             word += t[1].lower()
             toks.append(t)
             t = self.get_x()
+        if not word and t is not None and t[0] in ('cs', 'active') and isinstance(self.meaning_of(t), DimenReg):
+            # <factor><internal dimension>
+            return sign * val * self.meaning_of(t).cell[0]
         if word == 'tr':
             raise OutOfModel('true')
         if word not in UNITS:
@@ -655,13 +667,13 @@ class Interp(object):
                 self.execute(m.tok)
                 return
             if isinstance(m, CountReg):
-                # <register> <optional equals> <number>
+                # <register> <optional equals> <number or dimension>
                 x = self.get_x()
                 while x is not None and x[0] == SPACE:
                     x = self.get_x()
                 if x != (OTHER, '='):
                     self.push([x] if x is not None else [])
-                m.cell[0] = self.scan_int()
+                m.cell[0] = self.scan_dimen() if isinstance(m, DimenReg) else self.scan_int()
                 return
             if not isinstance(m, Prim):
                 raise OutOfModel(repr(m))
@@ -785,6 +797,14 @@ class Interp(object):
         if name[0] != 'cs':
             raise TeXError('bad \\newcount')
         self.define(name[1], CountReg(name[1]), glob=True)
+
+    def p_newdimen(self, t):
+        name = self.next_raw()
+        if name[0] != 'cs':
+            raise TeXError('bad \\newdimen')
+        reg = DimenReg(name[1])
+        reg.cell[0] = Fraction(0)
+        self.define(name[1], reg, glob=True)
 
     def p_newif(self, t):
         name = self.next_raw()
